@@ -46,6 +46,7 @@ SPECS = {
     'significant_cloud': dict(file='icao.py', params={'oktas': 'List Int'}, ret='List Bool', raises=False,
                               elementwise=False),
     'okta2code': dict(file='wmo.py', params={'val': 'Int'}, ret='Option String', raises=True, elementwise=False),
+    'okta2symb': dict(file='wmo.py', params={'val': 'Int', 'use_metsymb': 'Bool'}, ret='String', raises=True, elementwise=False),
     'height2code': dict(file='wmo.py', params={'val': 'PyFloat'}, ret='String', raises=True, elementwise=False),
     'perc2okta': dict(file='wmo.py', params={'val': 'PyFloat'}, ret='Int', raises=True, elementwise=True),
     # numeric arguments that are never NaN (hit heights of a set, percentages) are exact rationals (`Rat`);
@@ -130,9 +131,9 @@ class Tr:
             if isinstance(v, float):
                 return f'(F.ofRat {rat_lit(Fraction(repr(v)))})', 'PyFloat'
             if isinstance(v, str):
-                if '"' in v or '\\' in v:
-                    raise Unsupported(n, 'string constant with quotes/backslashes')
-                return f'"{v}"', 'String'
+                if '"' in v or any(ord(ch) < 32 or ord(ch) > 126 for ch in v):
+                    raise Unsupported(n, 'string constant with quotes / non-printable characters')
+                return '"' + v.replace('\\', '\\\\') + '"', 'String'
             if v is None:
                 return 'none', 'None'
             raise Unsupported(n, f'constant {v!r}')
@@ -328,6 +329,11 @@ class Tr:
             return c, 'Bool'
         if name == 'int' and len(args) == 1:
             return self.to_int(args[0], env, binds, n)
+        if name == 'str' and len(args) == 1 and not n.keywords:
+            c, t = self.expr(args[0], env, binds)
+            if t != 'Int':
+                raise Unsupported(n, f'str of {t}')
+            return f'(pyStrInt {c})', 'String'
         if isinstance(f, ast.Attribute) and f.attr == 'astype' and len(args) == 1 and dotted(args[0]) == 'int':
             return self.to_int(f.value, env, binds, n)
         if name == 'range' and len(args) == 1 and not n.keywords:
